@@ -427,10 +427,28 @@ func (r *rig) writesFor(t *tx, all []sim.WriteRec) []sim.WriteRec {
 			next = o.CallStamp
 		}
 	}
+	var sameID []*tx
+	for _, o := range r.allTxs() {
+		if o != t && o.ID == t.ID {
+			sameID = append(sameID, o)
+		}
+	}
 	var out []sim.WriteRec
 	for _, wr := range all {
 		if len(wr.Bytes) >= 20 && bytes.Equal(wr.Bytes[8:20], t.ID[:]) && wr.Stamp > t.CallStamp && wr.Stamp < next {
-			out = append(out, wr)
+			// a write still in flight for an earlier transaction with the same id (it was parked while the id was
+			// restarted) carries that transaction's bytes, not ours
+			foreign := false
+			if !bytes.Equal(wr.Bytes, t.Raw) {
+				for _, o := range sameID {
+					if o.Raw != nil && bytes.Equal(wr.Bytes, o.Raw) {
+						foreign = true
+					}
+				}
+			}
+			if !foreign {
+				out = append(out, wr)
+			}
 		}
 	}
 
@@ -495,6 +513,9 @@ func (r *rig) judge(o oracleSet, final bool) []rigProblem {
 				}
 				probs = append(probs, rigProblem{"start-error-but-handler-invoked", key,
 					fmt.Sprintf("%s returned %v, yet its handler was invoked %d time(s) (%s)", desc, t.RetErr, len(inv), inv[0].Class)})
+			case t.Kind == "Do" && t.RetErr == nil && len(inv) == 1 && t.RetStamp < inv[0].End:
+				probs = append(probs, rigProblem{"do-returned-before-handler-finished", "do-returned-before-handler-finished",
+					fmt.Sprintf("%s returned at stamp %d while its handler invocation ran from %d to %d", desc, t.RetStamp, inv[0].Begin, inv[0].End)})
 			case t.RetErr == nil && len(inv) == 0 && final:
 				probs = append(probs, rigProblem{"handler-never-invoked", "never-invoked:" + t.Kind,
 					fmt.Sprintf("%s returned nil but its handler was never invoked (client closed, world quiescent)", desc)})
@@ -656,6 +677,21 @@ func (r *rig) closeAccounting() []rigProblem {
 	}
 
 	return probs
+}
+
+// goroutineLeaksNow is a single scan without the grace period.
+func goroutineLeaksNow() []string {
+	var found []string
+	for _, g := range strings.Split(allStacks(), "\n\n") {
+		if strings.Contains(g, "stun/v3.(*Client).readUntilClosed") {
+			found = append(found, "reader goroutine (readUntilClosed)")
+		}
+		if strings.Contains(g, "stun/v3.(*tickerCollector).Start.func1") {
+			found = append(found, "collector goroutine (tickerCollector)")
+		}
+	}
+
+	return found
 }
 
 // goroutineLeaks looks for the client's reader / collector goroutines after Close returned.
